@@ -293,6 +293,15 @@ int main(int argc, char** argv) {
   fams.push_back(t3);
   fams.push_back(t4);
 
+  // T11: every binade. A double written by Dump() must parse back to the same bits: every biased exponent x 1024
+  // significands (a fixed multiplicative sequence), light check (one Dump, one Parse)
+  vr::Family t11;
+  t11.name = "T11_every_binade_roundtrip";
+  t11.count = (uint64_t)2047 * 1024;
+  t11.group = "T11";
+  t11.chunk = 8192;
+  t11.rule = "for every biased exponent 0..2046 and 1024 significands (j * 0x9E3779B97F4A7C15 mod 2^52, j = 1..1024): SetDouble, Dump(), Parse: the document is a double with the same bits, and the text has at most 17 significant digits";
+  fams.push_back(t11);
   // T10: the reservation made before each string must hold at EVERY fill level: documents in which many container
   // closes directly follow a string (nothing but strings and closes in between), serialised into a buffer of every
   // initial capacity, so that the buffer runs full at every point of the walk (exact-size reallocs under ASan)
@@ -317,6 +326,40 @@ int main(int argc, char** argv) {
   t9.rule = "strings of every length 0..130 and 255..257, 511..513, 1023..1025, 4097 in 8 byte patterns (plain; quote / backslash / control byte first, middle, last; all escapable) COPIED into a document whose allocator places every block directly in front of an inaccessible page: as root, array elements, object key + value, after CopyFrom of a parsed document, and parsed in place; full serialisation oracle";
   if (!asan) fams.push_back(t9);  // mprotect-based: production builds only (ASan has its own red zones)
   vr::CheckFn check = [&](const vr::Family& f, uint64_t idx, vr::Ctx& ctx) {
+    if (f.name[0] == 'T' && f.name[1] == '1' && f.name[2] == '1') {
+      uint64_t be = idx / 1024, j = idx % 1024 + 1;
+      uint64_t bits = (be << 52) | ((j * 0x9E3779B97F4A7C15ull) & ((1ull << 52) - 1));
+      if ((bits << 1) == 0) bits |= 1;
+      double v;
+      std::memcpy(&v, &bits, 8);
+      ctx.eval();
+      ctx.nontriv();
+      if (ctx.want_sample) {
+        char b[40];
+        snprintf(b, sizeof b, "%016llx", (unsigned long long)bits);
+        ctx.sample(b);
+      }
+      Document d;
+      d.SetDouble(v);
+      std::string out = d.Dump();
+      Document back;
+      back.Parse(out);
+      uint64_t got = 0;
+      if (!back.HasParseError() && back.IsDouble()) {
+        double g = back.GetDouble();
+        std::memcpy(&got, &g, 8);
+      }
+      size_t digits = 0;
+      for (char c : out) {
+        if (c == 'e' || c == 'E') break;
+        if (c >= '0' && c <= '9') digits++;
+      }
+      if (back.HasParseError() || !back.IsDouble() || got != bits)
+        ctx.violation("output_value", "ser_double_roundtrip", out, "double %016llx is written as %s, which parses back as %016llx (error %d)", (unsigned long long)bits, out.c_str(), (unsigned long long)got, (int)back.GetParseError());
+      else if (digits > 17 + 20)
+        ctx.violation("output_value", "ser_double_too_long", out, "double %016llx is written with %zu digits", (unsigned long long)bits, digits);
+      return;
+    }
     if (f.name[0] == 'T' && f.name[1] == '1' && f.name[2] == '0') {
       unsigned cap = (unsigned)(idx % 700);
       idx /= 700;
